@@ -27,18 +27,20 @@ S3 = ['stream3_s%02d_%s' % (i, d) for i in range(25) for d in 'fr']
 SQ3 = ['streamq3_s04_f', 'streamq3_s12_r']          # join forward, fork reversed (= join in walk order)
 SQ3_ALL = ['streamq3_s%02d_%s' % (i, d) for i in (4, 12, 10, 13) for d in 'fr']
 STREAM_QUICK = S2F + SQ3
-STREAM_THOROUGH = S2 + SQ3_ALL + S3 + ['stream_sym_n2']
+SQ4 = ['streamq4_s%02d_%s' % (i, d) for i in range(6) for d in 'fr']
+STREAM_THOROUGH = S2 + SQ3_ALL + S3 + ['stream_sym_n2'] + SQ4
+BUILD_QUICK = ['build_n2']
 AUG_QUICK = ['augment_n2', 'augment3_s04']
 AUG_MID = ['augment_n2', 'augment3_s04', 'augment3_s09', 'augment3_s11']
 AUG_ALL = ['augment_n2'] + ['augment3_s%02d' % i for i in range(25)]
 
 STREAM_BOUNDS = {
-    'graphs': 'quick: all 3 labelled DAGs on 2 functions (forward) + the join (0->2,1->2 forward) and the fork (0->1,0->2 walked in reverse) on 3 functions; thorough: all 25 labelled DAGs on 3 functions and all 3 on 2, each forward and reverse, plus a fully symbolic 2-function graph (symbolic edges, kinds and order)',
+    'graphs': 'quick: all 3 labelled DAGs on 2 functions (forward) + the join (0->2,1->2 forward) and the fork (0->1,0->2 walked in reverse) on 3 functions; thorough: all 25 labelled DAGs on 3 functions and all 3 on 2, each forward and reverse, a fully symbolic 2-function graph (symbolic edges, kinds and order), and 6 shapes on 4 functions (join with tail, chain into fork, two parallel chains, diamond, N, join whose tail was inserted first), forward and reverse, with the quick consumer bound',
     'conflicts': 'symbolic: any symmetric relation in which every conflicting pair is joined by a path',
     'consumer': 'symbolic: 2n+1 poll_next calls (quick n=3: 2n-1), before each poll up to n (quick n=3: 2) drops of symbolically chosen held FnRefs, i.e. any number in any order between two polls; stream dropped with refs still held, refs dropped afterwards',
     'unwind': 'n+1 (all loops, unwinding assertions on)',
 }
-STREAM_OUT = ['more than 3 functions; graphs on 3 functions are enumerated concretely (all 25), not symbolic: a fully symbolic 3-function graph needs > 40 GB', 'more polls than stated', 'real tokio internals (threads, memory ordering, cooperative budget)', 'stream_interruptible / stream_with_interruptible (harness not built yet)']
+STREAM_OUT = ['more than 4 functions; 4-function graphs other than the 6 listed shapes; graphs on 3 functions are enumerated concretely (all 25), not symbolic: a fully symbolic 3-function graph needs > 40 GB', 'more polls than stated', 'real tokio internals (threads, memory ordering, cooperative budget)', 'stream_interruptible / stream_with_interruptible (harness not built yet)']
 
 PROPERTIES = {
     'C01': {
@@ -46,19 +48,19 @@ PROPERTIES = {
         'thorough': AUG_ALL + STREAM_THOROUGH,
         'functions': AUG_FUNCS + STREAM_FUNCS,
         'bounds': dict(STREAM_BOUNDS, build='augment: symbolic 2-function user graph (every ordered pair absent/Logic/Contains) and all 25 user graphs on 3 functions (quick: the join), access declarations symbolic: 2 data types x {none, read, write} per function'),
-        'outside': STREAM_OUT + [NOT_ASYNC, 'predecessor counts / structure copies of build() (RepInv) are assumed on the run side, not yet decided by a harness'],
+        'outside': STREAM_OUT + [NOT_ASYNC, 'predecessor counts / structure copies of build() (RepInv) are decided under C02 for 2 functions only'],
         'assumptions': [M_DAGGY, M_TOKIO, M_SMALLVEC, M_TASK, M_REPINV, M_FLAGS, M_REPLAY],
         'claim': 'Composition, each link a solver-decided assertion: (a) build side - after DataEdgeAugmenter::augment every pair of functions with conflicting access (predicate written from the property text) is joined by a directed path; (b) run side, stream()/stream_with() - over any graph in which conflicting pairs are joined by a path, no function is yielded while a conflicting one is held, for every consumer schedule in the bound. Covers the stream family only.',
         'note': 'for_each_concurrent*/try_for_each_concurrent* are out of reach of the solver here (deep async); a change that sends done early in those bodies is not detected.',
     },
     'C02': {
-        'quick': STREAM_QUICK,
-        'thorough': STREAM_THOROUGH,
-        'functions': STREAM_FUNCS,
+        'quick': BUILD_QUICK + STREAM_QUICK,
+        'thorough': BUILD_QUICK + STREAM_THOROUGH,
+        'functions': STREAM_FUNCS + ['FnGraphBuilder::build (structure copies)', 'PredecessorCountCalc::calc'],
         'bounds': STREAM_BOUNDS,
         'outside': STREAM_OUT + [NOT_ASYNC],
         'assumptions': [M_DAGGY, M_TOKIO, M_TASK, M_REPINV, M_FLAGS, M_REPLAY],
-        'claim': 'stream()/stream_with(), forward and reverse: at the moment a FnRef is yielded every direct predecessor in the walked direction has been yielded and dropped (hence transitively), for every graph, order and consumer schedule in the bound.',
+        'claim': '(a) build(): the scheduling structures have exactly the edges of the graph (same order and kinds; reversed copy) and the predecessor counts are the in/out degrees over all edge kinds (2 functions, symbolic call sequence); (b) stream()/stream_with(), forward and reverse: at the moment a FnRef is yielded every direct predecessor in the walked direction has been yielded and dropped (hence transitively), for every graph, order and consumer schedule in the bound.',
         'note': 'fold_async*/try_fold_async*/for_each_concurrent*/try_for_each_concurrent* not decided (deep async, see DESIGN.md).',
     },
     'C03': {
@@ -146,15 +148,67 @@ PROPERTIES = {
     },
 }
 
+PROPERTIES['C14'] = {
+    'quick': ['iter_sym_n3'],
+    'thorough': ['iter_sym_n2', 'iter_sym_n3'],
+    'attribute_panics': True,
+    'functions': ['FnGraph::iter', 'iter_rev', 'toposort', 'map', 'fold', 'try_fold', 'for_each', 'try_for_each', 'iter_insertion', 'iter_insertion_mut', 'iter_insertion_with_indices'],
+    'bounds': {'graphs': 'fully symbolic built graph on 3 (thorough also 2) functions: per pair no edge / either direction, symbolic kinds incl. Data', 'failure': 'symbolic position of the failing call for try_fold / try_for_each (or none)', 'unwind': 5},
+    'outside': ['more than 3 functions', 'petgraph\'s Topo itself is the model (conformance-tested step by step against the real one); what is decided is fn_graph\'s wiring: which structure, which direction, short-circuit'],
+    'assumptions': [M_DAGGY, M_REPINV, M_FLAGS, M_REPLAY],
+    'claim': 'Each of the eleven sequential iteration APIs visits every function exactly once; iter/toposort/map/fold/try_fold/for_each/try_for_each after all predecessors over all edge kinds, iter_rev after all successors, iter_insertion* in insertion order; try_fold / try_for_each return the first error and invoke nothing afterwards.',
+    'note': 'graph and graph_structure are assumed equal in edges (RepInv, decided under C02 for 2 functions).',
+}
+
+PROPERTIES['C12']['quick'] = AUG_MID + ['eq_n3']
+PROPERTIES['C12']['thorough'] = AUG_ALL + ['eq_n2', 'eq_n3', 'build_n2']
+PROPERTIES['C12']['functions'] = AUG_FUNCS + ['<FnGraph as PartialEq>::eq', 'FnGraphBuilder::build (thorough, 2 functions)']
+PROPERTIES['C12']['outside'] = ['more than 3 functions / 2 data types', 'determinism of build() ("the same call sequence twice yields == graphs") is not decided by a two-build harness (three builds exhaust the solver memory); build() contains no source of nondeterminism (no hashing, no randomness) by reading']
+PROPERTIES['C12']['claim'] += ' FnGraph::eq: graphs assembled from equal functions and equal edge lists compare equal; a difference in one function, one edge kind, one edge direction or one missing edge compares unequal (symbolic 3-function graphs).'
+PROPERTIES['C12']['note'] = 'the "building twice" clause is reduced to equality of equal descriptions; see outside.'
+PROPERTIES['C11']['thorough'] = AUG_ALL + ['build_n2']
+PROPERTIES['C13']['thorough'] = ['rank_n2', 'rank_n3', 'rank_n4', 'build_n2']
+
+PROPERTIES['C09'] = {
+    'quick': ['outcome3_s04'],
+    'thorough': ['outcome3_s04', 'outcome3_s12', 'outcome3_s13', 'outcome3_s24'],
+    'functions': ['StreamOutcome::new', 'stream_outcome_state_after_stream (via verif_hooks::streaming)'],
+    'bounds': {'graphs': '3 functions (4 shapes; the functions under test only read the node list)', 'processed': 'symbolic list of distinct ids of every length 0..3 in any order', 'unwind': 5},
+    'outside': [NOT_ASYNC, 'which ids the eight streaming bodies put into the list, and the ControlFlow mapping of the control wrappers, are inside those bodies and not decided', 'poll_and_track_fn_ready with the interruptible feature: 103 M clauses at n = 2, solver out of memory'],
+    'assumptions': [M_DAGGY, M_FLAGS, M_REPLAY],
+    'claim': 'The two synchronous pieces every StreamOutcome goes through: StreamOutcome::new keeps fn_ids_processed as given and derives fn_ids_not_processed as exactly the complement in insertion order; the state is Finished iff no function remains, Interrupted otherwise.',
+    'note': 'partial: that the callers pass the ids in start order, and Continue/Break of the control variants, is not decided (deep async bodies).',
+}
+PROPERTIES['C15'] = {
+    'quick': ['rerun2_s01_f', 'rerun2_s00_f'],
+    'thorough': ['rerun2_s00_f', 'rerun2_s01_f', 'rerun2_s02_f', 'rerun2_s01_r', 'rerun3_s04_f'],
+    'tags': ['C15', 'C01', 'C02', 'C03', 'C05', 'C06'],
+    'attribute_panics': True,
+    'functions': STREAM_FUNCS,
+    'bounds': {'graphs': 'all 3 labelled DAGs on 2 functions (quick: 2 of them), thorough also the 3-function join', 'first run': 'a stream polled 0..2 times with symbolic drops, then abandoned: stream and held FnRefs dropped in either order', 'second run': 'a fresh stream on the same graph value with the full symbolic consumer of C05; every single-run oracle (C01 C02 C03 C05 C06 tags) must hold', 'unwind': 'n+1'},
+    'outside': STREAM_OUT + [NOT_ASYNC, 'more than two consecutive runs', 'first runs that completed, failed or were interrupted through the fold/for_each calls'],
+    'assumptions': [M_DAGGY, M_TOKIO, M_TASK, M_REPINV, M_FLAGS, M_REPLAY],
+    'claim': 'stream()/stream_with(): after a first stream on the graph was abandoned midway (any poll count in the bound, any drop order), the predecessor counts stored in the graph are unchanged and a second stream satisfies every guarantee of a run on a fresh graph.',
+    'note': 'FnGraph has no interior mutability, so shared-reference runs cannot alter it; the harness shows that per-run state (channels, counts, remaining) is really per run.',
+}
+PROPERTIES['C20'] = {
+    'quick': ['pair2_s01_ff'],
+    'thorough': ['pair2_s00_ff', 'pair2_s01_ff', 'pair2_s02_ff', 'pair2_s01_fr'],
+    'tags': ['C20', 'C01', 'C02', 'C03', 'C05', 'C06'],
+    'attribute_panics': True,
+    'functions': STREAM_FUNCS,
+    'bounds': {'graphs': 'labelled DAGs on 2 functions', 'runs': 'two streams on the same &FnGraph (forward/forward, forward/reverse), 8 steps, each step a symbolic choice of which stream moves: up to 2 symbolic FnRef drops then one poll_next', 'unwind': 'n+1'},
+    'outside': STREAM_OUT + [NOT_ASYNC, 'more than two runs, pairs involving fold/for_each calls, runs on different threads (one polling task)'],
+    'assumptions': [M_DAGGY, M_TOKIO, M_TASK, M_REPINV, M_FLAGS, M_REPLAY],
+    'claim': 'Two stream() runs interleaved in one task on the same graph: each run, checked with its own trace, satisfies the ordering, exactly-once, no-stall and termination oracles of a single run.',
+    'note': 'stream family only.',
+}
+
 NOT_APPLICABLE = {
     'C04': 'fold_async*/try_fold_async*/for_each_concurrent*/try_for_each_concurrent* are deep async state machines: Kani lowers them to nested unions and CBMC did not finish symbolic execution of a single call on the EMPTY graph within 30 min (DESIGN.md section 2); the property is entirely about those calls.',
     'C07': 'failure handling lives in the try_for_each_concurrent*/try_fold_async* bodies (deep async, out of reach of CBMC here, DESIGN.md section 2).',
     'C08': 'interruption handling of the fold/for_each calls is deep async (out of reach); the stream_interruptible clause has no harness yet.',
-    'C09': 'StreamOutcome is produced only by the fold/for_each calls (deep async, out of reach); unit harnesses for StreamOutcome::new / poll_and_track_fn_ready not built yet.',
     'C10': 'the limit is enforced by StreamExt::for_each_concurrent inside the deep async bodies; there is no fn_graph code outside them to execute symbolically.',
-    'C14': 'no harness yet (sequential iteration over the Topo model).',
-    'C15': 'no harness yet (re-run of stream()).',
     'C17': 'no harness yet (GraphInfo::from_graph); the serialisation clause is out of reach (serde_yaml string processing).',
     'C19': 'auto-trait membership (Send/Sync) of opaque types is decided by rustc\'s trait solver at type-check time: there is no execution, input or schedule to make symbolic and no SMT query whose verdict answers it.',
-    'C20': 'no harness yet (two interleaved streams).',
 }
